@@ -287,6 +287,13 @@ func (e *Engine) vpCall(st *State, name string, args []Value, site ssa.Instructi
 		e.cutLines[loc] = true
 		e.res.Assumptions["cut: the function reaching source line `"+pat+"` returns there (rest outside this harness)"]++
 		ret(st, nil)
+	case "Clock":
+		// virtual clock in nanoseconds, advanced by time.Sleep
+		c, ok := st.ghost["clock"].(*Term)
+		if !ok {
+			c = KInt64(0)
+		}
+		ret(st, c)
 	case "Observe":
 		ret(st, nil)
 	default:
